@@ -247,7 +247,10 @@ impl<'a> Evaluator<'a> {
                 CountDistinct(a) => {
                     let array = self.next(*a).eval(chunk)?;
                     for value in array.iter() {
-                        values.insert(value);
+                        // NULLs are not counted
+                        if !value.is_null() {
+                            values.insert(value);
+                        }
                     }
                     AggState::DistinctValue(values)
                 }
@@ -274,7 +277,10 @@ impl<'a> Evaluator<'a> {
                 t => panic!("not aggregation: {t}"),
             }),
             AggState::DistinctValue(mut values) => {
-                values.insert(value);
+                // NULLs are not counted
+                if !value.is_null() {
+                    values.insert(value);
+                }
                 AggState::DistinctValue(values)
             }
         }
@@ -326,7 +332,14 @@ trait Ext {
 
 impl Ext for DataValue {
     fn add(self, other: Self) -> Self {
-        if self.is_null() { other } else { self + other }
+        // aggregates skip NULLs
+        if self.is_null() {
+            other
+        } else if other.is_null() {
+            self
+        } else {
+            self + other
+        }
     }
 
     fn or(self, other: Self) -> Self {
